@@ -133,7 +133,7 @@ def number_bounds(check: Check, repo: Repo) -> None:
 
 def run(tier: str) -> Check:
     check = Check("C11", tier, EXPLANATION)
-    check.rules = ["ESCAPE", "ESCAPE-RENDER", "ARITY", "TRIAGE-PREMISE", "TOKEN-START", "LINE-OFFSET", "GRAPH-RECURSION", "NUM-BOUND"]
+    check.rules = ["ESCAPE", "ESCAPE-RENDER", "ARITY", "TRIAGE-PREMISE", "TOKEN-START", "LINE-OFFSET", "GRAPH-RECURSION", "NUM-BOUND", "DECODE-TOTAL"]
     repo = Repo()
     esc = escape_engine(repo)
     check.assumptions = [
@@ -153,6 +153,11 @@ def run(tier: str) -> Check:
         t2, _ = run_entry(check, repo, r, set(), "ESCAPE-RENDER")
         check.count("escaping_sites_examined", t2)
     token_starts(check, repo)
+    # the escape decoder evaluated on its model texts (sa/unescsem.py): every malformed escape ends in a grammar error
+    from .. import pestlang
+    from .c10 import META, escape_tables
+
+    escape_tables(check, repo, pestlang.read_pest(repo.read(META), META), rule="DECODE-TOTAL", only="another exception")
     graph_recursion(check, repo)
     number_bounds(check, repo)
     check.oblige("ESCAPE", ENTRY, "RecursionError, possible at every function on a call-graph cycle, is converted on the chain (no such site escapes)", True)
